@@ -1,7 +1,7 @@
 """TLC-generated cases for the accept/reject properties (spec/Verdict.tla)."""
 import os, json
 import prim
-from tlc import run_tlc, tlc_ok, printed, spec_digest, WORK, ToolError
+from tlc import atomic_dump, run_tlc, tlc_ok, printed, spec_digest, WORK, ToolError
 import stimuli
 
 
@@ -43,7 +43,7 @@ def cases(prop, tier, seed, nrand=None):
     if len(cs) != st["distinct"]:
         raise ToolError(f"{mod}: {len(cs)} CASE lines for {st['distinct']} states")
     res = {"prop": prop, "cases": cs, "stats": st}
-    json.dump(res, open(cache, "w"))
+    atomic_dump(res, cache)
     return res
 
 
